@@ -859,3 +859,12 @@ Proof.
   exists (mkLabel ["p"%char] all_lit), (mkLabel ["p"%char] ["x"%char]).
   split; [discriminate | reflexivity].
 Qed.
+
+(* every label the parser accepts (what `grog run //p:t`, a dependency string or an alias target can name) has a pattern
+   that selects it and nothing else, unless its name is the reserved word *)
+Theorem parsed_label_pattern_exact cur s l l' :
+  parse_label cur s = Some l -> lname l <> all_lit ->
+  (matches (pattern_of_label l) l' = true <-> l' = l).
+Proof.
+  intros Hp Hall. apply pattern_of_label_exact; [exact (parse_label_wf cur s l Hp) | exact Hall].
+Qed.
